@@ -10,12 +10,13 @@ import (
 
 // wallet content: 1..maxProofs proofs of 2^0..2^maxExp on the active / the inactive keyset, fees from the property's set
 var vhFeeSet = []uint64{0, 100, 250, 500, 1000, 2000}
+var vhMinProofs = 1
 
 func vhHoldings(maxProofs int, maxExp uint64) (*vhWalletEnv, v.Z, cashu.Proofs) {
 	ppkA := uint(v.PickU64(v.U64("ppk.active"), vhFeeSet...))
 	ppkI := uint(v.PickU64(v.U64("ppk.inactive"), vhFeeSet...))
 	env := vhNewWallet(ppkA, ppkI, 0)
-	n := v.Int("nProofs", 1, maxProofs)
+	n := v.Int("nProofs", vhMinProofs, maxProofs)
 	total := v.ZU(0)
 	var held cashu.Proofs
 	for i := 0; i < n; i++ {
@@ -86,6 +87,14 @@ func VHarnessSendC17() {
 	vhSendStep(2, 2)
 }
 func VHarnessSendWide() { vhSendStep(3, 4) }
+
+// exactly three proofs spread over both keysets (the smallest holding in which the inactive proofs are taken whole and
+// only a part of the active ones is selected on top of them)
+func VHarnessSendMixed3() {
+	vhFeeSet = []uint64{0, 1000}
+	vhMinProofs = 3
+	vhSendStep(3, 2)
+}
 
 // C18 kernel: offline selection covers amount + fees and only fails when it must
 func vhSelectKernel(maxProofs int, maxExp uint64) {
